@@ -16,8 +16,8 @@ import (
 )
 
 func (sc Scenario) consts(loadMode string, maxCrashes int) string {
-	return fmt.Sprintf(" Others = %d\n PhaseLen = %d\n DealBlock = %d\n AccBlock = %d\n LoadMode = %q\n MaxCrashes = %d\n",
-		sc.Cfg.N-1, sc.Cfg.PhaseLen, sc.DealBlock, sc.AccBlock, loadMode, maxCrashes)
+	return fmt.Sprintf(" Others = %d\n PhaseLen = %d\n DealBlock = %d\n AccBlock = %d\n SyncEvery = %d\n SyncOff = %d\n LoadMode = %q\n MaxCrashes = %d\n",
+		sc.Cfg.N-1, sc.Cfg.PhaseLen, sc.DealBlock, sc.AccBlock, sc.SyncEvery, sc.SyncOff, loadMode, maxCrashes)
 }
 
 // CrashGen is what TLC produced for the KeyperCrash model.
@@ -191,8 +191,19 @@ func CheckC08(c *core.Ctx) int {
 	var per []any
 	var leads []string
 	violations := 0
-	for _, sc := range scenarios() {
-		r := checkScenario(c, sc)
+	scs := scenarios()
+	results := make([]scenarioResult, len(scs))
+	var swg sync.WaitGroup
+	for i := range scs {
+		swg.Add(1)
+		go func(i int) { // the scenarios are independent of each other
+			defer swg.Done()
+			results[i] = checkScenario(c, scs[i])
+		}(i)
+	}
+	swg.Wait()
+	for i, sc := range scs {
+		r := results[i]
 		if r.code >= 0 {
 			return r.code
 		}
@@ -211,7 +222,7 @@ func CheckC08(c *core.Ctx) int {
 	total["exhaustive"] = c.Thorough()
 	total["spec_level_counterexamples"] = leads
 	total["rule"] = "per scenario (fixed schedule): TLC explores KeyperCrash exhaustively with a bounded number of crashes (safety monitors as invariants, completion and outbox drain as temporal properties under weak fairness, no state constraint) and prints every abstract crash behaviour; " +
-		"on the code side the schedule is re-run once per crash case: connection dropped before the k-th client->server protocol message of the keyper under test (quick: every 5th k and every commit point; thorough: every k), " +
+		"on the code side the schedule is re-run once per crash case: connection dropped before the k-th client->server protocol message of the keyper under test (quick: every 6th k and every commit point; thorough: every k), " +
 		"connection dropped after applying a commit / autocommit delete, process death between an accepted broadcast and the outbox delete for every broadcast, the TLC behaviours concretised on the fly, and (thorough) pairs; " +
 		"evaluations = cases executed; distinct_nontrivial = distinct descriptions of where the faults actually fired (protocol message, statement, step) over the cases in which all faults fired"
 	if err := ev.Write(ev.Evidence{PropertyID: c.Prop, Tier: c.Tier, Seed: c.Seed, Level: "model_checking", Coverage: total,
@@ -272,7 +283,7 @@ func checkScenario(c *core.Ctx, sc Scenario) scenarioResult {
 	rng := rand.New(rand.NewSource(c.Seed + 5))
 	var cases []CrashCase
 	cases = append(cases, CrashCase{Name: "crash-free"})
-	stride := 5
+	stride := 6
 	if c.Thorough() {
 		stride = 1
 	}
@@ -297,7 +308,7 @@ func checkScenario(c *core.Ctx, sc Scenario) scenarioResult {
 		cases = append(cases, CrashCase{Name: fmt.Sprintf("tm-afteraccept-%d", j), Faults: []Fault{{Kind: "tm-afteraccept", At: j}}})
 	}
 	abstract := g.Behaviours
-	maxAbs := 60
+	maxAbs := 30
 	if c.Thorough() {
 		maxAbs = 1200
 	}
@@ -338,7 +349,7 @@ func checkScenario(c *core.Ctx, sc Scenario) scenarioResult {
 	runs := make([]*crashRun, len(cases))
 	errs := make([]error, len(cases))
 	var wg sync.WaitGroup
-	sem := make(chan struct{}, 8)
+	sem := make(chan struct{}, 5)
 	for i := range cases {
 		wg.Add(1)
 		go func(i int) {
